@@ -66,13 +66,20 @@ func runSweep(w *World, pkgs []string, timeout int) {
 			path = modPath + "/" + p
 		}
 		for _, fn := range w.allFuncs(path) {
-			if fn.Parent() != nil {
-				continue // anonymous functions are inlined into their parents
+			if fn.Parent() != nil && w.contractFor(fn) == nil {
+				continue // anonymous functions without a contract are inlined into their parents
 			}
-			if strings.HasPrefix(fn.Name(), "init#") || fn.Name() == "init" {
+			if (strings.HasPrefix(fn.Name(), "init#") || fn.Name() == "init") && fn.Parent() == nil {
 				continue // package initialisation runs once at start-up and is exercised by every test
 			}
 			key := funcKey(fn)
+			if fc := w.contractFor(fn); fc != nil {
+				for k, c2 := range w.cons.Funcs {
+					if c2 == fc {
+						key = k
+					}
+				}
+			}
 			vc, err := w.VerifyFunc(key)
 			if err != nil {
 				fmt.Printf("UNSUPPORTED %-50s %v\n", relName(fn), err)
@@ -86,6 +93,19 @@ func runSweep(w *World, pkgs []string, timeout int) {
 			for _, o := range vc.obls {
 				if o.Kind == "safety" || (sweepAll && o.Kind != "cover") {
 					items = append(items, vcObl{vc, o})
+				}
+			}
+			if fc := w.contractFor(fn); sweepAll && fc != nil && fc.Opts["refines"] != "" {
+				for k, c2 := range w.cons.Funcs {
+					if c2 == fc {
+						if rvc, err := w.VerifyRefinement(k); err != nil {
+							fmt.Printf("CONTRACT-ERROR %s: %v\n", relName(fn), err)
+						} else {
+							for _, o := range rvc.obls {
+								items = append(items, vcObl{rvc, o})
+							}
+						}
+					}
 				}
 			}
 			rs := r.SolveAll(items)
